@@ -102,7 +102,11 @@ class C14Scenario(ChangeScenario):
         t_last = max([t for t, k, p in env.obs if k in ('user', 'kill', 'start', 'extra')]
                      + [t for t, k, p in env.obs if k == 'srv' and p.get('t_issued') is not None and t > p['t_issued']] + [0.0])
         p_last = env.memo.get('pipeline')
-        if p_last is not None and env.now >= t_last + SETTLE and not env.owes():
+        # a write the server rejected is made up for at the next occasion (an event of the object): with nothing happening after the last
+        # rejected write there is no such occasion (C12 spells that out) - liveness is not judged then
+        t_fault = max([t for t, k, p in env.obs if k == 'srv' and p.get('fault') and p.get('method') == 'patch'] + [-1.0])
+        t_event = max([t for t, k, p in env.obs if k in ('user', 'streamfault')] + [0.0])
+        if p_last is not None and env.now >= t_last + SETTLE and not env.owes() and not t_fault >= t_event:
             op = p_last.opid
             t0 = starts[op]
             # the objects' states when the process started (by position in the observation log)
